@@ -112,6 +112,15 @@ def tsv_doc(case):
     return "\n".join(lines) + "\n"
 
 
+def csv_source(text, src):
+    """the three kinds of source a CSV document is read from"""
+    if src == 0:
+        return io.BytesIO(text.encode("utf-8"))     # rdflib wraps it in codecs.getreader("utf-8")
+    if src == 1:
+        return io.StringIO(text, newline="")        # what the csv module asks for
+    return io.StringIO(text)                         # newline LF: lines end at LF only
+
+
 # ---------------------------------------------------------------- generators
 PLAIN = list("abx 1")
 SPECIAL = list("\"'\\&<>\t\n;#@^{}|`,") + ["&amp;", "&#13;", "]]>", "\\n", "\\u0041", "\"\"", "''"]
@@ -217,7 +226,7 @@ class C16(Suite):
 
     # ------------------------------------------------------------ generation
     def gen(self, rng, i):
-        fmt = rng.choice(["json", "xml", "xml", "tsv", "tsv", "csv"])
+        fmt = rng.choice(["json", "xml", "xml", "tsv", "tsv", "csv", "csvp", "csvp"])
         # most cases stay outside the trigger regions of the known findings
         # control characters make an XML result inexpressible (the writer must refuse): keep most XML cases expressible
         hot = fmt != "xml" or rng.random() < 0.25
@@ -244,7 +253,7 @@ class C16(Suite):
             row = []
             for v in vars_:
                 if v == dead or rng.random() > p_bound:
-                    if fmt in ("json", "csv") and rng.random() < 0.15:
+                    if fmt in ("json", "csv", "csvp") and rng.random() < 0.15:
                         row.append([v, None])
                     continue
                 for _try in range(5):
@@ -268,7 +277,9 @@ class C16(Suite):
         return {"fmt": fmt, "ask": ask, "vars": vars_, "rows": rows,
                 "style": {"sq": rng.random() < 0.4, "esc_all": rng.random() < 0.5, "bare": rng.random() < 0.5,
                           "cross": rng.random() < 0.3},
-                "bytes": rng.random() < 0.75, "via": via}
+                "bytes": rng.random() < 0.75, "via": via,
+                # CSV: 0 byte source (rdflib parser only), 1 text newline="", 2 text newline LF
+                "src": rng.choice([0, 0, 1, 2]) if fmt == "csvp" else rng.choice([1, 2])}
 
     # ------------------------------------------------------------ implementation
     def _result(self, case):
@@ -327,12 +338,15 @@ class C16(Suite):
                 return self._obs(Result.parse(src, format="tsv"))
             res = self._result(case)
             try:
-                data = res.serialize(format=fmt)
+                data = res.serialize(format="csv" if fmt == "csvp" else fmt)
             except ResultException:
                 return {"k": "refused"}   # the serialiser says the result cannot be expressed in this format
-            if fmt == "csv":
-                rows = list(csv.reader(io.StringIO(data.decode("utf-8"), newline="")))
-                return {"k": "cells", "m": rows}
+            if fmt in ("csv", "csvp"):
+                text = data.decode("utf-8")
+                src = csv_source(text, case.get("src", 1))
+                if fmt == "csv":
+                    return {"k": "cells", "m": list(csv.reader(src))}
+                return self._obs(Result.parse(src, format="csv"))
             return self._obs(Result.parse(io.BytesIO(data), format=fmt))
         except Exception as e:  # noqa: BLE001
             return {"k": "err", "exc": type(e).__name__}
@@ -348,13 +362,13 @@ class C16(Suite):
 
     # ------------------------------------------------------------ Coq text
     def coq_case(self, case):
-        fmt = {"json": "FJson", "xml": "FXml", "tsv": "FTsv", "csv": "FCsv"}[case["fmt"]]
+        fmt = {"json": "FJson", "xml": "FXml", "tsv": "FTsv", "csv": "FCsv", "csvp": "FCsvP"}[case["fmt"]]
         st = case["style"]
         rows = clist(clist(ctuple(cstr(k), copt(t, c_term)) for k, t in row) for row in case["rows"])
         return ("{| c_fmt := %s; c_ask := %s; c_vars := %s; c_rows := %s; "
-                "c_style := {| st_sq := %s; st_esc_all := %s; st_bare := %s; st_cross := %s |}; c_bytes := %s |}"
+                "c_style := {| st_sq := %s; st_esc_all := %s; st_bare := %s; st_cross := %s |}; c_bytes := %s; c_src := %s |}"
                 % (fmt, copt(case["ask"], cbool), clist(cstr(v) for v in case["vars"]), rows,
-                   cbool(st["sq"]), cbool(st["esc_all"]), cbool(st["bare"]), cbool(st["cross"]), cbool(case["bytes"])))
+                   cbool(st["sq"]), cbool(st["esc_all"]), cbool(st["bare"]), cbool(st["cross"]), cbool(case["bytes"]), cN(case.get("src", 1))))
 
     def coq_obs(self, o):
         if o["k"] == "err":
@@ -422,7 +436,7 @@ class C16(Suite):
         position of a term, for every format"""
         base_style = {"sq": False, "esc_all": False, "bare": False, "cross": False}
         a, b = ["I", "http://e/a"], ["L", "x", None, "en"]
-        for fmt in ("json", "xml", "tsv", "csv"):
+        for fmt in ("json", "xml", "tsv", "csv", "csvp"):
             for mask in itertools.product([0, 1], repeat=4):
                 rows = []
                 for r in range(2):
@@ -434,7 +448,7 @@ class C16(Suite):
                     rows.append(row)
                 yield {"fmt": fmt, "ask": None, "vars": ["x", "y"], "rows": rows, "style": base_style,
                        "bytes": True, "via": "direct"}
-            alphabet = PLAIN[:2] + list("\"'\\&<>\t\n\r;") + CONTROL + BREAKS + UNI + NONCHAR
+            alphabet = PLAIN[:2] + list("\"'\\&<>\t\n\r;,") + CONTROL + BREAKS + UNI + NONCHAR
             for ch in alphabet:
                 for sq in (False, True):
                     st = dict(base_style, sq=sq, esc_all=sq)
@@ -447,38 +461,423 @@ class C16(Suite):
                                              or t[0] == "B"):
                             continue
                         for bytes_ in (True, False) if fmt == "tsv" else (True,):
-                            yield {"fmt": fmt, "ask": None, "vars": ["x"], "rows": [[["x", t]]], "style": st,
-                                   "bytes": bytes_, "via": "direct"}
+                            for src in {"csv": (1, 2), "csvp": (0, 1, 2)}.get(fmt, (1,)):
+                                yield {"fmt": fmt, "ask": None, "vars": ["x"], "rows": [[["x", t]]], "style": st,
+                                       "bytes": bytes_, "via": "direct", "src": src}
                     if fmt != "tsv" and not sq:
                         break
 
 
-SUITES = [C16()]
+# ---------------------------------------------------------------- the csv module itself
+CSV_ATOMS = ["a", "b", "", " ", ",", '"', '""', "\r", "\n", "\r\n", "x,y", 'q"r', "\x0c", "\x85", "\u2028", "\x1c", "\x0b",
+             "\u00e9", "\U0001F600", "'", ";", "\t", "_:", "http://"]
+
+
+class CsvTable(Suite):
+    """ties the model of csv.writer / csv.reader (dialect of CSVResultSerializer) to Python's csv module:
+    arbitrary tables of strings written and read back, and arbitrary text given to the reader"""
+
+    name = "csvtable"
+    imports = "From RV Require Import Results.Model."
+    case_ty = "csvcase"
+    obs_ty = "(list N * option (list (list (list N))))%type"
+    model = "csvt_model"
+    oeq = "csvt_obs_eqb"
+    spec = "csvt_spec"
+    corr = "csv.writer(delimiter=',').writerow, csv.reader over codecs.StreamReader / io.StringIO(newline='') / io.StringIO"
+    quick_n = 700
+    thorough_n = 15000
+
+    def gen(self, rng, i):
+        src = rng.choice([0, 1, 1, 2])
+        if rng.random() < 0.3:
+            n = rng.choice([0, 1, 2, 4, 8])
+            raw = "".join(rng.choice(CSV_ATOMS + ["\r\n", ",", '"', "a"]) for _ in range(n))
+            return {"src": src, "table": [], "raw": raw}
+        table = []
+        for _ in range(rng.choice([0, 1, 1, 2, 3, 4])):
+            row = []
+            for _ in range(rng.choice([0, 1, 1, 2, 3])):
+                row.append("".join(rng.choice(CSV_ATOMS) for _ in range(rng.choice([0, 1, 1, 2, 3]))))
+            table.append(row)
+        return {"src": src, "table": table, "raw": None}
+
+    def run_impl(self, case):
+        if case["raw"] is not None:
+            text = case["raw"]
+        else:
+            buf = io.StringIO(newline="")
+            w = csv.writer(buf, delimiter=",")
+            for row in case["table"]:
+                w.writerow(row)
+            text = buf.getvalue()
+        src = csv_source(text, case["src"])
+        if case["src"] == 0:
+            import codecs
+            src = codecs.getreader("utf-8")(src)
+        try:
+            rows = list(csv.reader(src, delimiter=","))
+        except csv.Error:
+            rows = None
+        return {"text": text, "rows": rows}
+
+    def coq_case(self, case):
+        return "{| ct_src := %s; ct_table := %s; ct_raw := %s |}" % (
+            cN(case["src"]), clist(clist(cstr(x) for x in row) for row in case["table"]), copt(case["raw"], cstr))
+
+    def coq_obs(self, o):
+        return ctuple(cstr(o["text"]), copt(o["rows"], lambda m: clist(clist(cstr(x) for x in row) for row in m)))
+
+    def nontrivial(self, case, obs):
+        return bool(case["raw"]) or any(case["table"])
+
+    def features(self, case, obs):
+        return {"src_%d" % case["src"]: 1, "raw": int(case["raw"] is not None), "error": int(obs["rows"] is None)}
+
+    def shrink(self, case):
+        if case["raw"] is not None:
+            r = case["raw"]
+            for i in range(len(r)):
+                yield dict(case, raw=r[:i] + r[i + 1:])
+            return
+        t = case["table"]
+        for i in range(len(t)):
+            yield dict(case, table=t[:i] + t[i + 1:])
+            for j in range(len(t[i])):
+                yield dict(case, table=t[:i] + [t[i][:j] + t[i][j + 1:]] + t[i + 1:])
+                for k in range(len(t[i][j])):
+                    yield dict(case, table=t[:i] + [t[i][:j] + [t[i][j][:k] + t[i][j][k + 1:]] + t[i][j + 1:]] + t[i + 1:])
+
+    def sweep(self):
+        atoms = ["a", "", ",", '"', "\r", "\n", "\x0c"]
+        for src in (0, 1, 2):
+            for a in atoms:
+                for b in atoms:
+                    yield {"src": src, "table": [[a + b]], "raw": None}
+                    yield {"src": src, "table": [[a, b], [b]], "raw": None}
+                    for c in atoms:
+                        yield {"src": src, "table": [], "raw": a + b + c}
+
+
+# ---------------------------------------------------------------- documents rdflib did not write
+NS = "{http://www.w3.org/2005/sparql-results#}"
+XMLNS = "{http://www.w3.org/XML/1998/namespace}"
+
+
+def c_json(v):
+    if v is None:
+        return "JNull"
+    if v is True or v is False:
+        return f"(JBool {cbool(v)})"
+    if isinstance(v, str):
+        return f"(JStr {cstr(v)})"
+    if isinstance(v, list):
+        return "(JArr %s)" % clist(c_json(x) for x in v)
+    return "(JObj %s)" % clist(ctuple(cstr(k), c_json(x)) for k, x in v.items())
+
+
+def c_pelem(e):
+    tag, attrs, text, kids = e
+    return "(PE %s %s %s %s)" % (cstr(tag), clist(ctuple(cstr(k), cstr(v)) for k, v in attrs), copt(text, cstr),
+                                 clist(c_pelem(k) for k in kids))
+
+
+def et_of(e):
+    import xml.etree.ElementTree as ET
+    tag, attrs, text, kids = e
+    el = ET.Element(tag, {k: v for k, v in attrs})
+    el.text = text
+    for k in kids:
+        el.append(et_of(k))
+    return el
+
+
+RTEXT = ["x", "a b", " pad ", "7", "true", "&<>\"'", "\u00e9\U0001F600", "http://e/a", "_:b", "?v"]
+RNAMES = ["x", "y", "?x", "?", "a_1", "\u00e9"]
+
+
+class Readers(Suite):
+    """the JSON and XML result readers on documents that rdflib did not write: legacy and foreign shapes,
+    extra and missing members, unexpected elements; pure correspondence (reader model = reader)"""
+
+    name = "readers"
+    imports = "From RV Require Import Results.Model."
+    case_ty = "rcase"
+    obs_ty = "obs"
+    model = "reader_obs"
+    oeq = "obs_eqb"
+    spec = "reader_spec"
+    corr = "JSONResult.__init__/_get_bindings/parseJsonTerm, XMLResult.__init__/parseTerm, Variable.__new__"
+    quick_n = 600
+    thorough_n = 12000
+
+    # ---- JSON
+    def _jterm(self, rng):
+        r = rng.random()
+        v = rng.choice(RTEXT)
+        if r < 0.2:
+            d = {"type": "uri", "value": v}
+        elif r < 0.35:
+            d = {"type": "bnode", "value": v}
+        elif r < 0.5:
+            d = {"type": "literal", "value": v}
+        elif r < 0.6:
+            d = {"type": "literal", "value": v, "xml:lang": rng.choice(["en", "en-GB", ""])}
+        elif r < 0.72:
+            d = {"type": "literal", "value": v, "datatype": rng.choice(["http://e/dt", "", XSD + "string"])}
+        elif r < 0.84:
+            d = {"type": "typed-literal", "value": v, "datatype": rng.choice(["http://e/dt", XSD + "string"])}
+        elif r < 0.88:
+            d = {"type": "typed-literal", "value": v}
+        elif r < 0.92:
+            d = {"type": rng.choice(["triple", "URI", ""]), "value": v}
+        elif r < 0.95:
+            d = {"type": "literal", "value": v, "datatype": "http://e/dt", "xml:lang": "en"}
+        elif r < 0.97:
+            d = {"type": "literal", "value": v, "datatype": None, "xml:lang": None}
+        else:
+            d = {"value": v}
+        if rng.random() < 0.05:
+            d.pop("value", None)
+        if rng.random() < 0.1:
+            d["extra"] = [True, None, {}]
+        if rng.random() < 0.2:
+            d = dict(reversed(list(d.items())))
+        return d
+
+    def _json(self, rng):
+        names = rng.sample(RNAMES, rng.choice([0, 1, 2, 3]))
+        rows = []
+        for _ in range(rng.choice([0, 1, 2, 3])):
+            row = {}
+            for n in names + ([rng.choice(RNAMES)] if rng.random() < 0.2 else []):
+                if rng.random() < 0.6:
+                    row[n] = self._jterm(rng)
+            rows.append(row if rng.random() < 0.93 else rng.choice([[], "row", None]))
+        doc = {"head": {"vars": names}, "results": {"bindings": rows}}
+        r = rng.random()
+        if r < 0.15:
+            doc = {"head": {}, "boolean": rng.choice([True, False, "false", "", None, [], [False], {}])}
+        elif r < 0.2:
+            doc["boolean"] = rng.choice([True, False])
+        elif r < 0.25:
+            doc.pop("head")
+        elif r < 0.3:
+            doc["head"] = rng.choice([{}, {"link": []}, {"vars": names + [rng.choice(["", None, True])]}])
+        elif r < 0.34:
+            doc["results"] = rng.choice([{}, {"bindings": {}}, [], None])
+        elif r < 0.37:
+            doc = rng.choice([[], [doc], {}, {"head": {"vars": []}}])
+        if rng.random() < 0.3:
+            doc = dict(reversed(list(doc.items()))) if isinstance(doc, dict) else doc
+        return doc
+
+    # ---- XML
+    def _xterm(self, rng):
+        r = rng.random()
+        text = rng.choice(RTEXT + [None])
+        if r < 0.25:
+            return [NS + "uri", [], text, []]
+        if r < 0.4:
+            return [NS + "bnode", [], text or "b0", []]
+        attrs = []
+        if rng.random() < 0.35:
+            attrs.append(["datatype", rng.choice(["http://e/dt", "", XSD + "string"])])
+        if rng.random() < 0.35:
+            attrs.append([XMLNS + "lang", rng.choice(["en", "en-GB", ""])])
+        if rng.random() < 0.1:
+            attrs.append(["other", "1"])
+        tag = NS + "literal" if r < 0.9 else rng.choice([NS + "triple", "literal", "{urn:other}literal"])
+        kids = [[NS + "uri", [], "http://nested", []]] if rng.random() < 0.05 else []
+        return [tag, attrs, text, kids]
+
+    def _xml(self, rng):
+        names = rng.sample(RNAMES, rng.choice([0, 1, 2, 3]))
+        head_kids = []
+        for n in names:
+            head_kids.append([NS + "variable", [["name", n]] if rng.random() < 0.93 else [], None, []])
+            if rng.random() < 0.15:
+                head_kids.append([NS + "link", [["href", "http://e/l"]], None, []])
+        results = []
+        for _ in range(rng.choice([0, 1, 2, 3])):
+            binds = []
+            for n in names + ([rng.choice(RNAMES)] if rng.random() < 0.25 else []):
+                if rng.random() < 0.6:
+                    kids = [self._xterm(rng)] if rng.random() < 0.93 else []
+                    if rng.random() < 0.1:
+                        kids.append(self._xterm(rng))
+                    attrs = [["name", n]] if rng.random() < 0.93 else []
+                    binds.append([NS + "binding" if rng.random() < 0.93 else rng.choice([NS + "bind", "binding"]), attrs, None, kids])
+            results.append([NS + "result" if rng.random() < 0.9 else rng.choice([NS + "results", "{urn:other}result"]),
+                            [], None, binds])
+        kids = [[NS + "head", [], None, head_kids], [NS + "results", [], None, results]]
+        r = rng.random()
+        if r < 0.15:
+            kids = [[NS + "head", [], None, []],
+                    [NS + "boolean", [], rng.choice(["true", "false", " TRUE \n", "True", "1", "", None, "truex"]), []]]
+        elif r < 0.2:
+            kids.append([NS + "boolean", [], "true", []])
+        elif r < 0.25:
+            kids.insert(0, [NS + "head", [], None, [[NS + "variable", [["name", "extra"]], None, []]]])
+        elif r < 0.3:
+            kids = kids[:1]
+        elif r < 0.35:
+            kids = [kids[1]]
+        elif r < 0.4:
+            kids = [[NS + "wrapper", [], None, kids]]
+        if rng.random() < 0.3:
+            kids.reverse()
+        for k in kids:
+            if k[2] == "":
+                k[2] = None
+        return [rng.choice([NS + "sparql", "sparql", NS + "other"]), [], None, kids]
+
+    def gen(self, rng, i):
+        if rng.random() < 0.5:
+            return {"k": "json", "doc": self._json(rng)}
+        return {"k": "xml", "doc": self._xml(rng)}
+
+    def run_impl(self, case):
+        try:
+            if case["k"] == "json":
+                import json as _json
+                data = _json.dumps(case["doc"], ensure_ascii=False).encode("utf-8")
+                return C16._obs(None, Result.parse(io.BytesIO(data), format="json"))
+            import xml.etree.ElementTree as ET
+            data = ET.tostring(et_of(case["doc"]), encoding="utf-8")
+            return C16._obs(None, Result.parse(io.BytesIO(data), format="xml"))
+        except Exception as e:  # noqa: BLE001
+            return {"k": "err", "exc": type(e).__name__}
+
+    def coq_case(self, case):
+        if case["k"] == "json":
+            return "(RJson %s)" % c_json(case["doc"])
+        return "(RXml %s)" % c_pelem(case["doc"])
+
+    coq_obs = C16.coq_obs
+
+    def nontrivial(self, case, obs):
+        return obs["k"] != "err"
+
+    def features(self, case, obs):
+        return {"k_" + case["k"]: 1, "obs_" + obs["k"]: 1}
+
+    def shrink(self, case):
+        return []
+
+
+# ---------------------------------------------------------------- Result.parse / Result.serialize dispatch
+# (the graph result parsers registered under RDF media types are not probed: they fail in format-specific ways)
+D_NAMES = ["json", "xml", "csv", "tsv", "txt", "application/sparql-results+json", "application/sparql-results+xml",
+           "text/csv", "text/tab-separated-values", "application/x-unknown", "", "JSON", "json "]
+D_PARAMS = ["", ";charset=utf-8", "; charset=utf-8", " ;q=1", ";", ";;x"]
+
+
+class Dispatch(Suite):
+    """which parser Result.parse(format=, content_type=) and which serialiser Result.serialize(format=) pick, observed on
+    the real code path: the parser is recognised by how it fails on an empty source, the serialiser by what it writes for an
+    ASK result"""
+
+    name = "dispatch"
+    imports = "From RV Require Import Results.Dispatch."
+    case_ty = "dcase"
+    obs_ty = "option N"
+    model = "dispatch_obs"
+    oeq = "dispatch_eqb"
+    spec = "dispatch_spec"
+    corr = "Result.parse (plugin key from format / content_type), Result.serialize (format), rdflib.plugin registrations"
+    quick_n = 150
+    thorough_n = 1500
+
+    def gen(self, rng, i):
+        if rng.random() < 0.3:
+            return {"ser": True, "format": rng.choice(D_NAMES + [None]), "ct": None}
+        fmt = rng.choice(D_NAMES + [None, None, None]) if rng.random() < 0.5 else None
+        ct = (rng.choice(D_NAMES) + rng.choice(D_PARAMS)) if rng.random() < 0.8 else None
+        return {"ser": False, "format": fmt, "ct": ct}
+
+    def run_impl(self, case):
+        from rdflib.plugin import PluginException
+        if case["ser"]:
+            r = Result("SELECT")
+            r.vars = [Variable("x")]
+            r.bindings = []
+            try:
+                data = r.serialize(**({} if case["format"] is None else {"format": case["format"]}))
+            except PluginException:
+                return None
+            if data.startswith(b"{"):
+                return 1
+            if data.startswith(b"<?xml"):
+                return 2
+            if data == b"x\r\n":
+                return 4
+            return 5
+        try:
+            Result.parse(io.BytesIO(b""), format=case["format"], content_type=case["ct"])
+            return 0
+        except PluginException:
+            return None
+        except Exception as e:  # noqa: BLE001
+            n = type(e).__name__
+            return {"JSONDecodeError": 1, "ParseError": 2, "ParseException": 3, "StopIteration": 4}.get(n, 6)
+
+    def coq_case(self, case):
+        return "{| d_ser := %s; d_format := %s; d_ct := %s |}" % (cbool(case["ser"]), copt(case["format"], cstr), copt(case["ct"], cstr))
+
+    def coq_obs(self, o):
+        return copt(o, cN)
+
+    def features(self, case, obs):
+        return {"ser": int(case["ser"]), "unknown": int(obs is None)}
+
+    def sweep(self):
+        for n in D_NAMES + [None]:
+            yield {"ser": True, "format": n, "ct": None}
+            for p in D_PARAMS:
+                yield {"ser": False, "format": None, "ct": None if n is None else n + p}
+                yield {"ser": False, "format": n, "ct": "text/csv" + p}
+
+
+SUITES = [C16(), CsvTable(), Readers(), Dispatch()]
 
 TRUSTED = [
     "Coq 8.16.1 kernel and standard library; coqc's vm_compute",
-    "harness/c16.py: case encoding, the structural term key tk(), the independent W3C TSV writer tsv_doc()",
-    "Python's json module (json.loads(json.dumps(v)) == v on str/bool/list/dict values), csv module "
-    "(csv.reader returns the cells csv.writer was given), xml.sax.saxutils.XMLGenerator element structure and "
-    "expat/ElementTree tokenisation outside character data and attribute values, pyparsing's And/MatchFirst/"
-    "ZeroOrMore/Regex semantics, codecs.StreamReader.readline == str.splitlines",
+    "harness/c16.py: case encoding, the structural term key tk(), the independent W3C TSV writer tsv_doc(), the three kinds of "
+    "CSV source (csv_source), ElementTree's serialiser for the foreign XML documents of the readers suite, the probes of the "
+    "dispatch suite (a parser is recognised by how it fails on an empty source)",
+    "Python's json module (json.loads(json.dumps(v)) == v on str/bool/list/dict values; a quantified hypothesis of "
+    "C16_json_result), xml.sax.saxutils.XMLGenerator element structure and ignorableWhitespace writing verbatim, "
+    "expat/ElementTree tokenisation outside character data and attribute values, pyparsing's And/MatchFirst/ZeroOrMore/Regex "
+    "semantics; the csv module is NOT trusted any more: its writer and reader are modelled (Modules/_csv.c) and tied by the "
+    "csvtable suite",
 ]
 ASSUMPTIONS = [
     "Literal(lex, datatype, lang) keeps the triple (lex, datatype, lang) for the terms of a case (normalisation is "
     "property C09); generated literals are checked to be fixed points of their constructor",
-    "row dictionaries bind only variables of the result, each at most once (a Python dict)",
+    "row dictionaries bind only variables of the result, each at most once (a Python dict); variable names are not empty "
+    "and do not start with '?' (Variable() changes such names before any format is involved)",
     "strings are sequences of Unicode scalar values (no lone surrogates)",
     "TSV: the model has no pyparsing whitespace skipping; on conformant renderings no token is preceded by blanks. "
     "Bare decimals/doubles/signed numbers are outside the modelled writer (they are always expressible in quoted form)",
-    "XML: element nesting and tag recognition are those of the XML library; the model covers character data and attributes; "
-    "XMLGenerator.ignorableWhitespace writes its argument verbatim; a ResultException raised by Result.serialize is the "
-    "observation 'refused' (demanded exactly for results with a character outside the XML 1.0 Char production)",
+    "XML: the model starts from the element tree with raw strings at the leaves (element nesting and tag recognition are those "
+    "of the XML library); XMLGenerator.ignorableWhitespace writes its argument verbatim; a ResultException raised by "
+    "Result.serialize is the observation 'refused' (demanded exactly for results with a character outside the XML 1.0 Char "
+    "production)",
+    "CSV: csv.writer/csv.reader behave as Modules/_csv.c of CPython 3.12 for the dialect (',', '\"', doublequote, CRLF, "
+    "QUOTE_MINIMAL, no escapechar, not strict); io.StringIO(newline='') yields lines ending at LF, CR, CRLF, io.StringIO() at LF, "
+    "codecs.StreamReader where str.splitlines cuts",
+    "readers suite: BNode(None) (an empty <bnode/>) mints a label that is not compared; foreign documents avoid it",
     "lxml and orjson are not installed in the checked environment (the ElementTree / json code paths are the ones modelled)",
 ]
-RULE = ("random result tables: format in {json, xml, tsv, csv}, 0-4 variables from a pool of 7 (+7 exotic names incl. VT, U+FFFE, CR; TSV: names ending in U+1680), 0-6 rows, "
-        "each cell bound with p in {.5,.7,.9}, explicit None values (json/csv), forced all-unbound rows and dead/trailing columns, "
-        "terms: IRIs, blank nodes, plain/language/typed literals whose strings mix plain characters, XML/JSON/TSV/CSV "
-        "metacharacters, entity look-alikes, CR/CRLF, C0/C1 controls, line separators, non-characters and non-BMP characters; "
-        "ASK true/false; Result built directly or by the engine from a VALUES query; TSV rendering style (quote kind, "
-        "optional ECHARs, bare integers/booleans) and source kind (bytes/text) random. Distinct by full case content; "
-        "non-trivial = ASK or at least one bound cell.")
+RULE = ("results: random result tables: format in {json, xml, tsv, csv read by csv.reader, csv read by CSVResultParser}, 0-4 "
+        "variables from a pool of 7 (+7 exotic names incl. VT, U+FFFE, CR; TSV: names ending in U+1680), 0-6 rows, each cell "
+        "bound with p in {.5,.7,.9}, explicit None values (json/csv), forced all-unbound rows and dead/trailing columns, terms: "
+        "IRIs, blank nodes, plain/language/typed literals whose strings mix plain characters, XML/JSON/TSV/CSV metacharacters, "
+        "entity look-alikes, CR/CRLF, C0/C1 controls, line separators, non-characters and non-BMP characters; ASK true/false; "
+        "Result built directly or by the engine from a VALUES query; TSV rendering style and source kind random; CSV source "
+        "kind in {bytes, text newline='', text newline LF}. csvtable: tables of 0-4 rows x 0-3 fields over 24 atoms (quotes, "
+        "commas, CR, LF, CRLF, blanks, line separators, empty) and raw texts of 0-8 atoms, three line iterators. readers: "
+        "foreign JSON/XML result documents derived from a valid one by ~12 kinds of perturbation each. dispatch: format names and "
+        "content types with parameters. Distinct by full case content; non-trivial = ASK or at least one bound cell "
+        "(results), a non-empty table/text (csvtable), a document the reader accepts (readers).")
